@@ -472,6 +472,10 @@ where
         for i in from..stored_to {
             if unlikely(hole_iter.peek() == Some(&&i)) {
                 hole_iter.next();
+                // After rollback a deleted slot can still have an entry in `updated`.
+                if update_iter.peek().is_some_and(|&(&k, _)| k == i) {
+                    update_iter.next();
+                }
                 byte_off += Self::SIZE_OF_T;
                 continue;
             }
@@ -521,6 +525,10 @@ where
         for i in from..stored_to {
             if unlikely(hole_iter.peek() == Some(&&i)) {
                 hole_iter.next();
+                // After rollback a deleted slot can still have an entry in `updated`.
+                if update_iter.peek().is_some_and(|&(&k, _)| k == i) {
+                    update_iter.next();
+                }
                 byte_off += Self::SIZE_OF_T;
                 continue;
             }
